@@ -3452,3 +3452,55 @@ def _make_object_exec():  # noqa: C901, PLR0915
 
     ObjExec.Instance = Instance  # type: ignore[attr-defined]
     return ObjExec
+
+
+# --------------------------------------------------------------------------- R-FALSYZERO
+# Optional numeric quantum numbers of qrules' InteractionProperties: None means "not specified", 0 is a value (an
+# S-wave has L = 0).  A truth test confuses the two; `is None` / `is not None` is the only test that does not.
+OPTIONAL_NUMBERS = {"l_magnitude", "s_magnitude", "l_projection", "s_projection"}
+
+
+def falsy_zero_hazards(tree: Tree, prefix: str = "ampform") -> tuple[list[tuple[FuncInfo, ast.AST, str]], int]:
+    """(hazards, number of reads judged).  A hazard is an expression in a TRUTH context - an operand of ``or`` / ``and``,
+    the test of ``if`` / ``while`` / a conditional expression / a comprehension filter, the operand of ``not`` - that IS an
+    optional quantum number (an attribute of OPTIONAL_NUMBERS, directly or through single-assignment copies of it).
+    Comparisons (``x is None``, ``x == 0``, ``x > 0``) are not truth tests of x."""
+    out: list[tuple[FuncInfo, ast.AST, str]] = []
+    reads = 0
+    for q, fn in sorted(tree.funcs.items()):
+        if not q.startswith(prefix) or not any(isinstance(n, ast.Attribute) and n.attr in OPTIONAL_NUMBERS for n in walk_function(fn.node, nested=False)):
+            continue
+        rd = RD(fn.node)
+
+        def origin(e: ast.AST, depth: int = 0) -> str | None:
+            if isinstance(e, ast.Attribute) and e.attr in OPTIONAL_NUMBERS:
+                return unparse(e)
+            if isinstance(e, ast.NamedExpr):
+                return origin(e.value, depth + 1)
+            if isinstance(e, ast.Name) and isinstance(e.ctx, ast.Load) and depth < 6:
+                defs = rd.reaching(e)
+                got = {origin(d.value, depth + 1) if d.kind == "assign" and d.value is not None and d.index is None else None for d in defs}
+                if len(got) == 1:
+                    return next(iter(got))
+            return None
+
+        tested: list[ast.AST] = []
+        for n in walk_function(fn.node, nested=False):
+            if isinstance(n, ast.Attribute) and n.attr in OPTIONAL_NUMBERS and isinstance(n.ctx, ast.Load):
+                reads += 1
+            if isinstance(n, ast.BoolOp):
+                tested += n.values[:-1]  # the last operand's truth is not looked at by the operator itself
+                parent = getattr(n, "_parent", None)
+                if isinstance(parent, (ast.If, ast.While, ast.IfExp)) and parent.test is n:
+                    tested.append(n.values[-1])
+            elif isinstance(n, (ast.If, ast.While, ast.IfExp)):
+                tested.append(n.test)
+            elif isinstance(n, ast.UnaryOp) and isinstance(n.op, ast.Not):
+                tested.append(n.operand)
+            elif isinstance(n, ast.comprehension):
+                tested += n.ifs
+        for t in tested:
+            src = origin(t)
+            if src is not None:
+                out.append((fn, t, src))
+    return out, reads
